@@ -77,6 +77,10 @@ Setup ==
          << [op |-> "NewDoc", out |-> "d1"], [op |-> "AddNs", h |-> "d1", p |-> "ex", u |-> A],
             [op |-> "NewDoc", out |-> "d2"], [op |-> "AddNs", h |-> "d2", p |-> "ex", u |-> A],
             [op |-> "NewDoc", out |-> "d3"], [op |-> "AddNs", h |-> "d3", p |-> "e3", u |-> A] >>
+    [] Scenario = "c04c" ->     \* lookups that find nothing, literal datatypes under other prefixes / other URIs
+         << [op |-> "NewDoc", out |-> "d1"], [op |-> "AddNs", h |-> "d1", p |-> "ex", u |-> A],
+            [op |-> "NewDoc", out |-> "d2"], [op |-> "AddNs", h |-> "d2", p |-> "ex", u |-> A],
+            [op |-> "NewDoc", out |-> "d3"], [op |-> "AddNs", h |-> "d3", p |-> "e3", u |-> A] >>
     [] Scenario = "c04b" ->     \* three equal documents; compare, edit through any mutator, compare again
          << [op |-> "NewDoc", out |-> "d1"], [op |-> "AddNs", h |-> "d1", p |-> "ex", u |-> A],
             [op |-> "NewDoc", out |-> "d2"], [op |-> "AddNs", h |-> "d2", p |-> "ex", u |-> A],
@@ -161,6 +165,11 @@ RecMenu ==
             formals |-> << <<"entity", Ref(NameQN("ex", A, X))>> >>, extras |-> <<>>],
            [k |-> "generation", id |-> <<>>, formals |-> << <<"entity", Ref(NameQN("ex", A, Y))>> >>, extras |-> <<>>] }
     [] Scenario = "c04b" -> {}
+    [] Scenario = "c04c" ->
+         { [k |-> "entity", id |-> <<NameQN("ex", A, X)>>, formals |-> <<>>,
+            extras |-> << <<NameQN("ex", A, <<"attr">>), [t |-> "lit", v |-> "s1", dt |-> QN(d[1], d[2], <<"dtype">>)]>> >>]
+             : d \in { <<"ex", A>>, <<"e3", A>>, <<"q", A>>, <<"q", C>> } }
+         \cup { [k |-> "entity", id |-> <<NameQN("ex", A, X)>>, formals |-> <<>>, extras |-> <<>>] }
     [] Scenario = "c12" ->
          { [k |-> "entity", id |-> <<NamePL("ex", Y)>>, formals |-> <<>>, extras |-> <<>>],
            [k |-> "entity", id |-> <<NamePL("ex", X)>>, formals |-> <<>>,
@@ -200,6 +209,8 @@ ActsMutate ==   \* C12 follow-up mutators on any live object
 ActsBundle04 == { [op |-> "Bundle", h |-> h, id |-> NameQN("ex", A, <<"b1">>), out |-> h \o "b"]
                     : h \in Docs \cap {"d1", "d2"} }
 ActsCompare == { [op |-> "CompareAll", hs |-> <<"d1", "d2", "d3">>] }
+ActsGet04 == { [op |-> "GetRecord", h |-> h, id |-> i] : h \in {"d1", "d2", "d3"},
+               i \in { NameQN("ex", A, <<"nope">>), NameUri(A \o X) } }
 ActsEdit04 ==
   { [op |-> "SetTime", r |-> [c |-> h, i |-> 1], start |-> s, end |-> e]
       : h \in {"d1", "d2", "d3"}, s \in {<<>>, <<[t |-> "dt", v |-> "t2"]>>},
@@ -212,6 +223,7 @@ Compared == Len(hist) > NSetup /\ hist[Len(hist)].op = "CompareAll"
 Menu ==
   CASE Scenario = "c04" -> IF Compared THEN {} ELSE ActsNewRec \cup ActsBundle04 \cup ActsCompare
     [] Scenario = "c04b" -> ActsEdit04 \cup (IF Compared THEN {} ELSE ActsCompare)
+    [] Scenario = "c04c" -> IF Compared THEN {} ELSE ActsNewRec \cup ActsGet04 \cup ActsCompare
     [] Scenario \in {"c18", "c18b"} -> ActsNewRec \cup ActsAddRecord \cup ActsUpdate \cup ActsAddBundle
                            \cup ActsDerive \cup ActsGet
     [] Scenario = "c09b" -> ActsNewRec \cup ActsUpdate \cup {a \in ActsDerive : a.op = "Flattened"}
